@@ -117,6 +117,13 @@ c16!(c16_tl08_read_size12, 16, read_instr_never_panics::<12>(&TimelineFormat08, 
 //@ C16 c16_label_ecl06_no_panic quick default ECL TH06-095 label decoding (signed relative offset) of an arbitrary 32-bit jump argument never panics
 c16!(c16_label_ecl06_no_panic, 2, decode_label_never_panics(&OldeEclHooks { game: Game::Th07 }));
 
+//@ C16 c16_ecl06_read_size13 quick default ECL (TH06-095): read_instr on arbitrary header bytes whose size field is 13 (one more than the header) returns Ok or Err and never panics (no underflow, no failed assert, no out-of-range read)
+c16!(c16_ecl06_read_size13, 17, read_instr_never_panics::<13>(&OldeEclHooks { game: Game::Th07 }, 6, 2, 13));
+//@ C16 c16_tl06_read_size9 quick default ECL timeline (TH06-07): read_instr on arbitrary header bytes whose size field is 9 (one more than the header) returns Ok or Err and never panics (no underflow, no failed assert, no out-of-range read)
+c16!(c16_tl06_read_size9, 13, read_instr_never_panics::<9>(&TimelineFormat06, 6, 2, 9));
+//@ C16 c16_tl08_read_size9 quick default ECL timeline (TH08+): read_instr on arbitrary header bytes whose size field is 9 (one more than the header) returns Ok or Err and never panics (no underflow, no failed assert, no out-of-range read)
+c16!(c16_tl08_read_size9, 13, read_instr_never_panics::<9>(&TimelineFormat08, 6, 1, 9));
+
 #[cfg(kani)]
 #[path = "/verif/.cache/playback/ecl_06.rs"]
 mod playback;
